@@ -61,6 +61,9 @@ def _run(tier, seed, t0, on_accept=None):
     g2 = Var('g', TFun(IntType, IntType, IntType))
     Pp = Var('P', TFun(IntType, BoolType))
     H = Var('hyp_', BoolType)
+    P2v = Var('P2', TFun(IntType, IntType, BoolType))
+    P3v = Var('P3', TFun(IntType, IntType, IntType, BoolType))
+    g3v = Var('g3', TFun(IntType, IntType, IntType, IntType))
 
     # ------------------------------------------------------------ own encoding for the oracle
     class Unsupported(Exception):
@@ -423,6 +426,20 @@ def _run(tier, seed, t0, on_accept=None):
         for prem in ([Eq(s1, s2)], [Eq(s2, s1)], []):
             for cl in [(Not(Pp(s1)), Pp(s2)), (Pp(s1), Not(Pp(s2))), (Not(Pp(s1)), Pp(t1)), (Pp(s1), Pp(s2))]:
                 try_rule('verit_eq_congruent_pred', tuple(Not(e) for e in prem) + cl, [], 'equality')
+        # predicates / functions of 2 and 3 arguments with 0..3 premise equalities: every argument position needs
+        # its equality (a trailing argument that differs without one must be refused)
+        u1, u2 = rng.choice(terms), rng.choice(terms)
+        all_prem = [Eq(s1, s2), Eq(t1, t2), Eq(u1, u2)]
+        for npr in (0, 1, 2, 3):
+            prem = all_prem[:npr]
+            for cl in [(Not(P3v(s1, t1, u1)), P3v(s2, t2, u2)), (Not(P3v(s1, t1, u1)), P3v(s2, t2, u1)),
+                       (P3v(s1, t1, u1), Not(P3v(s2, t2, u2))), (Not(P2v(s1, t1)), P2v(s2, t2)),
+                       (Not(P2v(s1, t1)), P2v(s2, t1)), (Not(P2v(s1, t1)), P2v(t2, s2))]:
+                try_rule('verit_eq_congruent_pred', tuple(Not(e) for e in prem) + cl, [], 'equality')
+            for goal in [Eq(g3v(s1, t1, u1), g3v(s2, t2, u2)), Eq(g3v(s1, t1, u1), g3v(s2, t2, u1)),
+                         Eq(g3v(s1, t1, u1), g3v(s2, t1, u1))]:
+                try_rule('verit_eq_congruent', tuple(Not(e) for e in prem) + (goal,), [], 'equality')
+                try_rule('verit_cong', (goal,), [Thm(e, H) for e in prem], 'equality')
         try_rule('verit_eq_reflexive', (Eq(s1, s1),), [], 'equality')
         try_rule('verit_eq_reflexive', (Eq(s1, s2),), [], 'equality')
 
